@@ -31,6 +31,12 @@ pub struct Profile {
     pub counts: Vec<(u16, u64)>,
 }
 
+/// Statistics whose total exceeds u32::MAX: the first symbol's region is handed to merge_regions 65536
+/// times (the iterator of source regions may repeat a region), the other symbols come from a second one.
+pub fn huge_total_profile() -> Profile {
+    Profile { name: "huge-total".into(), counts: vec![(10, 1u64 << 32), (20, 1), (30, 1), (40, 1), (50, 3)] }
+}
+
 pub fn fib_profile(k: usize) -> Profile {
     let mut c = Vec::new();
     let (mut a, mut b) = (1u64, 1u64);
@@ -170,19 +176,28 @@ impl<B: Sym> HuffMachine<B> {
         // the statistics are spread over two source regions with overlapping alphabets: the code must
         // be built from the *summed* counts
         let (mut ca, mut cb) = (BTreeMap::new(), BTreeMap::new());
+        // counts of 2^32 and more are reached by handing the same source region to merge_regions many times
+        let mut reps = 1usize;
         for (s, n) in &counts {
-            ca.insert(*s, n - n / 2);
-            if n / 2 > 0 {
-                cb.insert(*s, n / 2);
+            if *n >= 1 << 32 {
+                reps = 1 << 16;
+                ca.insert(*s, n >> 16);
+            } else if reps > 1 {
+                cb.insert(*s, *n);
+            } else {
+                ca.insert(*s, n - n / 2);
+                if n / 2 > 0 {
+                    cb.insert(*s, n / 2);
+                }
             }
         }
         let (src_a, src_b) = (Self::source_from(&ca), Self::source_from(&cb));
-        let c = guard(|| HuffmanContainer::merge_regions([&src_a, &src_b].into_iter())).map_err(|p| {
+        let sources = || std::iter::repeat(&src_a).take(reps).chain(std::iter::once(&src_b));
+        let c = guard(|| HuffmanContainer::merge_regions(sources())).map_err(|p| {
             format!("merge_regions panicked for statistics {}: {p}", show_counts(&counts))
         })?;
         // measure lengths on a scratch twin
-        let mut scratch =
-            guard(|| HuffmanContainer::merge_regions([&src_a, &src_b].into_iter())).map_err(|p| format!("merge_regions panicked: {p}"))?;
+        let mut scratch = guard(|| HuffmanContainer::merge_regions(sources())).map_err(|p| format!("merge_regions panicked: {p}"))?;
         let mut lens = BTreeMap::new();
         let mut pos = 0usize;
         for s in counts.keys() {
@@ -433,6 +448,15 @@ impl<B: Sym> HuffMachine<B> {
     }
 }
 
+fn clip(s: &str) -> String {
+    if s.chars().count() > 300 {
+        let h: String = s.chars().take(300).collect();
+        format!("{h}…")
+    } else {
+        s.to_string()
+    }
+}
+
 fn show_counts<B: Sym>(c: &BTreeMap<B, u64>) -> String {
     if c.len() > 8 {
         let head: Vec<String> = c.iter().take(5).map(|(s, n)| format!("{s:?}:{n}")).collect();
@@ -534,6 +558,16 @@ impl<B: Sym> Machine for HuffMachine<B> {
                 });
                 match (merged, Self::build(counts, self.g.generation + 1)) {
                     (Ok(m), Ok(mut g)) => {
+                        // the live container's statistics must be what was pushed into it: the code table of
+                        // the real merge equals the one built from the model's counts
+                        if m.verif_fingerprint() != g.c.verif_fingerprint() {
+                            return Step::Violation(format!(
+                                "merge_regions([self]) built a code table that differs from the one for the symbols pushed into it {}:\n   live:  {}\n   model: {}",
+                                show_counts(&g.code_counts),
+                                clip(&m.verif_fingerprint()),
+                                clip(&g.c.verif_fingerprint())
+                            ));
+                        }
                         g.c = m;
                         self.g = g;
                         self.make_items();
@@ -687,6 +721,19 @@ impl<B: Sym> Machine for HuffCmpMachine<B> {
             }
             items.extend(next.iter().cloned());
             frontier = next;
+        }
+        // items of about 58..64 bits (one machine word) that differ only in their leading bits, at
+        // whatever bit offset they happen to start
+        if syms.len() >= 2 {
+            for n in [29usize, 30, 31, 32] {
+                let mut a = vec![syms[0]; n];
+                items.push(a.clone());
+                a[0] = syms[1];
+                items.push(a.clone());
+                let mut b = vec![syms[0]; n];
+                b[n - 1] = syms[1];
+                items.push(b);
+            }
         }
         let counts1: BTreeMap<B, u64> = self.profile.counts.iter().map(|(s, n)| (B::from_u16(*s), *n)).collect();
         // a different code for the same alphabet: counts reversed and squared
